@@ -68,6 +68,9 @@ def lex(text):
                     break
                 buf.append(text[j])
                 j += 1
+            if any(not (0x20 <= ord(ch) <= 0x7E) for ch in buf):
+                # Strings theory: the string constants are the literals made of printable ASCII (others: \\u{X})
+                raise IllFormed("string-literal-character", "character outside 0x20-0x7E in a string literal")
             toks.append(Atom("str", "".join(buf)))
             i = j + 1
         elif c == "|":
